@@ -20,8 +20,8 @@ constexpr bool pre_c10_nonneg2(fixed_t a, fixed_t b) { return a.v >= 0 && b.v >=
 constexpr bool lem_c10_tan_factors(fixed_t a, fixed_t b) { return detail::tan_range(a.v) != detail::tan_range(b.v) || tan(a) == tan(b); }
 constexpr bool lem_c10_period(fixed_t x, int64_t k) { return tan(as_fixed(x.v + k * PHI)) == tan(x); }
 // series kernel tan_<20> on its call domain [0, pi/4] (prec 20): result between x and 1.02 (so >> 4 is >= 1 for x >= 16)
-constexpr bool pre_tan_k(long x) { return x >= 0 && x <= 823552; }
-constexpr bool post_tan_k(long x, long r) { return r >= x && r <= 1069548 && (x != 0 || r == 0); }   // tan_(0) == 0 is what makes tan odd at 0
+constexpr bool pre_tan_k(long x) { return x >= 0 && x <= 880000; }     // call sites need [0, 823552]; proved on a 7% wider domain so that a small shift of the crossover is not a precondition failure
+constexpr bool post_tan_k(long x, long r) { return r >= x && r <= 1200000 && (x > 823552 || r <= 1069548) && (x != 0 || r == 0); }   // tan_(0) == 0 is what makes tan odd at 0
 // div_<16>: truncated quotient of x*2^16 by y, bounded by |x|*2^16
 constexpr bool pre_div16(long x, long y) { return y != 0 && x >= 0 && x < (1l << 47); }   // call sites pass a non-negative dividend (x << 16 of a negative value is UB before C++20)
 constexpr bool post_div16(long x, long y, long r)
